@@ -443,7 +443,7 @@ def jobs(tier, seed):
     for g in (['path3', 'tri+pendant', 'star', 'mixed', 'edge'] + (['square', 'k4'] if T else [])):
         for mode in ('strict', 'default'):
             add('VertexCover/%s/%s' % (g, mode), 'make_vertexcover', dict(graph=g, mode=mode))
-    for (m, N) in ([(1, 3), (2, 2)] + ([(2, 3)] if T else [])):
+    for (m, N) in ([(1, 3)] + ([(2, 2), (2, 3)] if T else [(2, 1)])):
         add('BILP/m%d/N%d/strict' % (m, N), 'make_bilp', dict(m=m, N=N, mode='strict', R=2 if (T and (m, N) != (2, 3)) else 1))
     for (nj, nw) in ([(2, 2), (1, 2)] + ([(3, 2), (2, 3), (1, 3)] if T else [])):
         for log in (True, False):
